@@ -118,7 +118,7 @@ P = {
         "C14_stored_text_positions via from_sparse_spec. FTAB/FTAB_ARGC are regenerated from src/utils.rs on every run "
         "(tools/gen_tables.py) and proved equal to a frozen reference copy (regression pin). Totality: "
         "C14_no_panic_parse_formula_xls/_xlsb (every byte string), C14_no_panic_xlsb_read_names / _xls_read_names, C14_no_panic_a1. "
-        "C14_defined_name_text_is_render_xls (every Lbl formula that encodes a well-formed AST is reported as its rendering). C14_shared_formula_members_xls / C14_array_formula_members_xls and C14_sheet_formulas_xlsb / C14_shared_formula_members_xlsb / C14_array_formula_members_xlsb / C14_worksheet_formula_members_xlsb (FormulaSheet.v: every member of a shared / array group of an xls or xlsb sheet reports the group formula translated to its own position, PtgRefN / PtgAreaN offsets signed and wrapping as the format defines: 65536 x 256 for xls, 1048576 x 16384 for xlsb; xlsb: model of next_formula with its one-record look-ahead), C14_builtin_names_table (_xlnm.* names), C14_choose_correct_*, C14_user_function_correct_*, C14_sheet_name_quoting. No known class is left (K_PTGEXP repaired in both binary readers). Tie: hooks "
+        "C14_defined_name_text_is_render_xls (every Lbl formula that encodes a well-formed AST is reported as its rendering). C14_shared_formula_members_xls / C14_array_formula_members_xls and C14_sheet_formulas_xlsb / C14_shared_formula_members_xlsb / C14_array_formula_members_xlsb / C14_worksheet_formula_members_xlsb (FormulaSheet.v: every member of a shared / array group of an xls or xlsb sheet reports the group formula translated to its own position, PtgRefN / PtgAreaN offsets signed and wrapping as the format defines: 65536 x 256 for xls, 1048576 x 16384 for xlsb; xlsb: model of next_formula with its one-record look-ahead; xls: the sheet substream BOF, items, EOF, rest, whose items include NESTED substreams (embedded chart: any records incl. FORMULA / SHRFMLA / ARRAY at cells of the sheet's groups, BOF-EOF balanced) anywhere between the formula records: they contribute nothing and disturb nothing), C14_builtin_names_table (_xlnm.* names), C14_choose_correct_*, C14_user_function_correct_*, C14_sheet_name_quoting. No known class is left (K_PTGEXP repaired in both binary readers). Tie: hooks "
         "push_column / both parse_formula / A1 helpers (exhaustive column sweep, random ASTs, malformed rgce with outcome "
         "prediction) and generated .xlsb, .xls, .xlsx and .ods files through worksheet_formula on every sheet and defined_names.",
    note=TB + " f64 display is a Section variable; <> OutOfFuel for the two decoders on arbitrary input is not proved. Table translator: tools/gen_tables.py (fail-closed regex extraction).",
@@ -145,9 +145,15 @@ P = {
         "(row, col_first + i), BoolErr table with one-to-one error codes, cached formula values, C02_string_continue_bytes, and "
         "C02_xls_sheet_main, UNCONDITIONAL: for every logical sheet and every legal layout — record kind per value, MULRK grouping, "
         "FORMULA [SHRFMLA|ARRAY|TABLE|any ignored record]* STRING [CONTINUE]* with per-fragment flag bytes, ROW/DBCELL/INDEX/BLANK/"
-        "MULBLANK records, both DIMENSIONS widths, cell records in ANY order — the model of the sheet loop of parse_workbook + "
-        "from_sparse returns range_of sheet (induction over items with fuel by record count). No known class (StringContinue "
-        "repaired in /repo by 64f46cd). C02_xls_whole_file_main (XlsFile.v): the WHOLE FILE — for every logical workbook and every "
+        "MULBLANK records, both DIMENSIONS widths, MERGECELLS records, cell records in ANY order, and (audit 2, XLS-2) substreams "
+        "NESTED in the sheet (item ISub = BOF, ANY records incl. cell-record ids at positions of the sheet's own cells / FORMULA / "
+        "STRING / MERGECELLS / DIMENSIONS / CONTINUE records / further BOF..EOF pairs, EOF; only BOF-EOF balance is asked; several "
+        "per sheet, anywhere between the cell records: the chart substream Excel writes for every embedded chart object) — the "
+        "model of the sheet loop of parse_workbook (which counts the open substreams) + "
+        "from_sparse returns range_of sheet (induction over items with fuel by record count; inside a nested substream induction "
+        "over its records with the nesting depth as invariant). C02_nested_substream_inert: a layout reads the same cells and formula "
+        "positions with and without any of its nested substreams. No known class (StringContinue "
+        "repaired in /repo by 64f46cd; XLS-2 by the fix of round xlsB). C02_xls_whole_file_main (XlsFile.v): the WHOLE FILE — for every logical workbook and every "
         "legal choice of compound-file layout, globals substream, SST CONTINUE layout, number formats and per-sheet record layout, the "
         "model of Xls::new + worksheet_range on the file bytes returns the sheets in order, each exactly range_of its cells — by "
         "composing C13, C16, C12, C10, this property and C05 (only the glue is new: lbPlyPos offsets, the environment the globals yield). Totality: C02_no_panic_sheet / _sheet_cells / _sheet_at / _records (every byte string at fuel "
@@ -162,7 +168,9 @@ P = {
  "C17": dict(claimed=True,
    text="Coq theorems over Merge.v on Col26/Range: C17_merge_ref_roundtrip (every pair of corners up to XFD1048576 / IV65536 reads back "
         "through the hardened A1 scanner), C17_merge_list_exact_xlsx/_xls (count, order, attribution by sheet, for every workbook and "
-        "every legal encoding), C17_table_meta_exact (unconditional: exists tables, read_table_metadata = Ok tables and their "
+        "every legal encoding; xls: the substream from its own BOF, any number of MergeCells records, between and behind them any "
+        "records of the sheet and any NESTED substreams BOF..EOF (embedded charts, [MS-XLS] 2.1.7.20.5 puts them BEFORE the "
+        "MergeCells records) holding any records incl. MERGECELLS of their own, BOF-EOF balanced), C17_table_meta_exact (unconditional: exists tables, read_table_metadata = Ok tables and their "
         "observation is the specified one — both relationship type URIs, absolute and ../ targets, escaped names, all xsd:boolean "
         "spellings of insertRow, header-only / totals-only / empty tables), C17_name_unescape, C17_table_names, C17_table_geometry "
         "(data range = reference minus header rows on top and totals / insert rows at the bottom; None for a table without data rows) "
